@@ -35,13 +35,11 @@ def PExp.must (e : PExp) (l : Nat) : PExp := .alt e (.raise l)
 /-- `seq< e₁, …, eₙ >`. -/
 def seqL : List PExp → PExp
   | [] => .eps
-  | [e] => e
   | e :: es => .seq e (seqL es)
 
 /-- `sor< e₁, …, eₙ >`. -/
 def altL : List PExp → PExp
   | [] => .failE
-  | [e] => e
   | e :: es => .alt e (altL es)
 
 /-- `rep< n, e >`. -/
